@@ -27,6 +27,25 @@ EXPLANATION = ('Obligation list: one obligation per (function instantiation, sub
 POS = 'engine::Position'
 
 
+def _from_new_code(p, f, e, depth=0):
+    """the expression is computed (through its locals' definitions) from a local or a helper the reference tree did not have"""
+    fl = getattr(f, 'frozen_locals', None)
+    if fl is None or depth > 4 or e is None:
+        return False
+    for x in walk(e):
+        r = x.get('ref') or {}
+        if r.get('k') == 'Local':
+            if r['n'] not in fl:
+                return True
+            for d in f.all_nodes():
+                if d['k'] == 'VarDecl' and d.get('id') == r['id'] and kids(d) and _from_new_code(p, f, kids(d)[0], depth + 1):
+                    return True
+        g = p.funcs.get((x.get('callee') or {}).get('fid')) if x.get('callee') else None
+        if g is not None and p.is_new_function(g):
+            return True
+    return False
+
+
 def _site_info(f, n):
     if n.get('callee', {}).get('n') == 'engine::square_bb':
         return 'square_bb', 64, kids(n)[1], 'shift'
@@ -285,7 +304,7 @@ def check(ctx):
 
     for (f, n, base, ext, idx, itv, kind) in special:
         ok, rule, why = _named(ctx, p, f, n, base, ext, idx, itv, kind, maxm, stack)
-        if not ok and rule == 'unclassified' and p.is_new_function(f):
+        if not ok and rule == 'unclassified' and (p.is_new_function(f) or _from_new_code(p, f, idx)):
             raise AnalysisBroken('C10: subscript %s[...] at %s is in code the reference tree did not have and no rule classifies it' % (base, f.loc(n)))
         key = '%s%s:%s[%s]' % (short(f.name), '<%s>' % short(f.targs) if f.targs else '', base, canon(f, idx, inline=False))
         ctx.ob('C10.BUF.' + rule, key, ok,
